@@ -37,6 +37,27 @@ func c04One(ctx *vh.Ctx, c *c04Case) error {
 	if err := json.Unmarshal(raw, &model); err != nil {
 		return err
 	}
+	// some fan-in of the stream-mode run merges streams that share a key: the concatenation
+	// depends on the arrival order of their chunks (value mode refuses such a merge)
+	var od struct {
+		OrderDep struct {
+			Flag bool `json:"flag"`
+		} `json:"orderDep"`
+	}
+	if err := json.Unmarshal(raw, &od); err != nil {
+		return err
+	}
+	delete(model, "orderDep")
+	if od.OrderDep.Flag {
+		ctx.Res.Dist("order-dependent-merge")
+	}
+	broken, lazy := c04HasBreak(c.G)
+	if broken {
+		ctx.Res.Dist("broken-producer")
+	}
+	if len(c.G.Stages) > 0 {
+		ctx.Res.Dist("chain")
+	}
 	natives := map[string]bool{}
 	for _, n := range c.G.Nodes {
 		natives[n.Native] = true
@@ -65,6 +86,14 @@ func c04One(ctx *vh.Ctx, c *c04Case) error {
 			continue
 		}
 		if !c04Same(inv.Res, pr.Res) {
+			if lazy && inv.Res.Err != nil && pr.Res.Ok != nil && model["invoke"].Err != nil && model[p].Ok != nil {
+				// a producer broke in the middle of a stream (or a pass-through node found no chunk
+				// with its input key) and nobody drains that stream (no path to END, or the run
+				// reaches END first): Invoke sees the failure when the node runs, a lazy stream
+				// cannot report it. The model predicts exactly this outcome (compared below).
+				ctx.Res.Dist("unread-broken-stream:" + p)
+				continue
+			}
 			ctx.Res.Disagree(vh.Disagreement{Signature: "C04:paradigms:" + c04Kind(inv.Res) + "-vs-" + c04Kind(pr.Res),
 				What: fmt.Sprintf("Invoke and %s disagree: %s vs %s", p, vh.Canon(inv.Res), vh.Canon(pr.Res)), Case: c, Model: model,
 				Impl: map[string]any{"invoke": inv.Res, p: pr.Res}})
@@ -77,7 +106,7 @@ func c04One(ctx *vh.Ctx, c *c04Case) error {
 			continue
 		}
 		m := model[p]
-		if p != "invoke" && model["invoke"].Err != nil && model["invoke"].Err.C == "merge" {
+		if p != "invoke" && (od.OrderDep.Flag || (model["invoke"].Err != nil && model["invoke"].Err.C == "merge")) {
 			// a fan-in with a duplicated key: value mode fails; in stream mode the chunks of the
 			// sources interleave in arrival order, the concatenation is schedule dependent
 			continue
@@ -112,6 +141,334 @@ func c04Kind(r gcase.ResultJ) string {
 	return "none"
 }
 
+// ---------- generators of the families the generic generator reaches too rarely ----------
+
+// c04Lambda: a tag node with a random native subset and chunk pattern.
+func c04Lambda(r *vh.Rand, key string) gcase.Node {
+	n := gcase.Node{Key: key, Body: gcase.Body{Op: "tag"}}
+	for _, p := range []string{"i", "s", "c", "t"} {
+		if r.Chance(40) {
+			n.Native += p
+		}
+	}
+	if n.Native == "" {
+		n.Native = []string{"i", "s", "c", "t"}[r.Intn(4)]
+	}
+	for k := r.Intn(3); k > 0; k-- {
+		n.Chunks = append(n.Chunks, r.Intn(4))
+	}
+	return n
+}
+
+// c04Break turns a lambda into a producer that breaks in the middle of its stream: it returns its
+// reader and reports its failure as an error item after 0..2 chunks (mostly natively streaming;
+// when it implements neither Stream nor Transform it fails at call time in every form).
+func c04Break(r *vh.Rand, n *gcase.Node) {
+	after := r.Intn(3)
+	n.Body = gcase.Body{Op: "fail", ID: r.Range(1, 9), After: &after}
+	if !strings.ContainsAny(n.Native, "st") && r.Chance(85) {
+		n.Native += []string{"s", "t"}[r.Intn(2)]
+	}
+	if len(n.Chunks) == 0 && r.Chance(70) {
+		n.Chunks = []int{r.Intn(3), r.Intn(3)}
+	}
+}
+
+// c04BreakOne breaks one lambda of a generated graph (sometimes inside a nested graph).
+func c04BreakOne(r *vh.Rand, g *gcase.Graph) {
+	var idx []int
+	for i, n := range g.Nodes {
+		if n.Body.Op == "tag" || n.Body.Op == "fail" || (n.Body.Op == "graph" && r.Chance(50)) {
+			idx = append(idx, i)
+		}
+	}
+	if len(idx) == 0 {
+		return
+	}
+	n := &g.Nodes[idx[r.Intn(len(idx))]]
+	if n.Body.Op == "graph" {
+		c04BreakOne(r, n.Body.G)
+		return
+	}
+	c04Break(r, n)
+}
+
+// c04PickKey puts a pass-through node with an input key in front of a lambda: the lambda then
+// takes the string under that key as its Go input (no input key of its own), and returns a map,
+// a string under an output key or a typed map — the pass-through gets its type from it.
+func c04PickKey(r *vh.Rand, g *gcase.Graph) {
+	inBranch := map[string]bool{}
+	for _, b := range g.Branches {
+		for _, e := range b.Ends {
+			inBranch[e] = true
+		}
+	}
+	outKey := func(k string) (string, bool) {
+		if k == "start" {
+			return "in", true
+		}
+		for i := range g.Nodes {
+			n := &g.Nodes[i]
+			if n.Key == k && n.Keyable() {
+				n.OutTyped = false // the value under the key must be the string itself
+				if n.OutKey != "" {
+					return n.OutKey, true
+				}
+				return n.Key, true
+			}
+		}
+		return "", false
+	}
+	var cands [][2]int // node index, edge index
+	for i, n := range g.Nodes {
+		if !n.Keyable() || n.InKey != "" || n.SIn != "" || inBranch[n.Key] {
+			continue
+		}
+		in, ei := 0, -1
+		for j, e := range g.Edges {
+			if e[1] == n.Key {
+				in++
+				ei = j
+			}
+		}
+		if in == 1 && g.Edges[ei][0] != n.Key {
+			cands = append(cands, [2]int{i, ei})
+		}
+	}
+	if len(cands) == 0 {
+		return
+	}
+	c := cands[r.Intn(len(cands))]
+	pred := g.Edges[c[1]][0]
+	k, ok := outKey(pred)
+	if !ok {
+		return
+	}
+	if r.Chance(8) {
+		k = "missing"
+	}
+	pk := fmt.Sprintf("p%d", c[0])
+	g.Nodes = append(g.Nodes, gcase.Node{Key: pk, Body: gcase.Body{Op: "pass"}, InKey: k})
+	g.Nodes[c[0]].SIn = k
+	g.Edges[c[1]] = [2]string{pred, pk}
+	g.Edges = append(g.Edges, [2]string{pk, g.Nodes[c[0]].Key})
+}
+
+// c04GenFanIn: START (-> head) -> 2..3 producers -> join -> END, the join being a lambda, a
+// pass-through node or END itself. Producers mostly carry distinct output keys (their streams
+// reach the merge as converted readers), one of them may break in the middle of its stream.
+func c04GenFanIn(r *vh.Rand) *gcase.Graph {
+	g := &gcase.Graph{Mode: []string{"pregel", "dag"}[r.Intn(2)]}
+	src, srcKey := "start", "in"
+	if r.Chance(30) {
+		h := c04Lambda(r, "h")
+		g.Nodes = append(g.Nodes, h)
+		g.Edges = append(g.Edges, [2]string{"start", "h"})
+		src, srcKey = "h", "h"
+	}
+	np := r.Range(2, 3)
+	var prods []string
+	for i := 0; i < np; i++ {
+		n := c04Lambda(r, fmt.Sprintf("a%d", i))
+		if r.Chance(80) {
+			n.OutKey = fmt.Sprintf("k%d", i)
+			n.OutTyped = r.Chance(20)
+		}
+		if r.Chance(25) {
+			n.InKey = srcKey
+		}
+		g.Nodes = append(g.Nodes, n)
+		g.Edges = append(g.Edges, [2]string{src, n.Key})
+		prods = append(prods, n.Key)
+	}
+	if r.Chance(50) {
+		c04Break(r, &g.Nodes[len(g.Nodes)-1-r.Intn(np)])
+	}
+	join := "end"
+	switch k := r.Intn(100); {
+	case k < 45:
+		j := c04Lambda(r, "j")
+		g.Nodes = append(g.Nodes, j)
+		join = "j"
+	case k < 65:
+		g.Nodes = append(g.Nodes, gcase.Node{Key: "j", Body: gcase.Body{Op: "pass"}})
+		join = "j"
+	}
+	for _, p := range prods {
+		g.Edges = append(g.Edges, [2]string{p, join})
+	}
+	if join != "end" {
+		g.Edges = append(g.Edges, [2]string{join, "end"})
+	}
+	return g
+}
+
+// c04GenChain: a case built through compose.NewChain: 1..4 stages, each a lambda (with input /
+// output keys), a pass-through node, a pass-through node with an input key followed by a lambda
+// taking the picked string, or a Parallel of 2..3 keyed lambdas; lambdas may break mid-stream.
+func c04GenChain(r *vh.Rand) *gcase.Graph {
+	g := &gcase.Graph{Mode: "pregel"}
+	prev := []string{"start"}
+	keys := []string{"in"} // keys the previous stage's output carries
+	id := 0
+	fresh := func(p string) string { id++; return fmt.Sprintf("%s%d", p, id) }
+	add := func(stage []gcase.Node) {
+		var ks []string
+		for _, n := range stage {
+			g.Nodes = append(g.Nodes, n)
+			for _, p := range prev {
+				g.Edges = append(g.Edges, [2]string{p, n.Key})
+			}
+			ks = append(ks, n.Key)
+		}
+		g.Stages = append(g.Stages, ks)
+		prev = ks
+	}
+	// a key of the previous stage's output whose value a lambda takes as a string (so the value
+	// under it must be the string itself, not a typed map)
+	someKey := func() string {
+		if r.Chance(8) {
+			return "missing"
+		}
+		k := keys[r.Intn(len(keys))]
+		for i := range g.Nodes {
+			if g.Nodes[i].OutKey == k {
+				g.Nodes[i].OutTyped = false
+			}
+		}
+		return k
+	}
+	ns := r.Range(1, 4)
+	for s := 0; s < ns; s++ {
+		k := r.Intn(100)
+		if len(prev) > 1 && k >= 65 { // a Parallel cannot follow a Parallel
+			k = r.Intn(65)
+		}
+		switch {
+		case k < 35: // lambda
+			n := c04Lambda(r, fresh("n"))
+			if r.Chance(30) {
+				n.InKey = someKey()
+			}
+			if r.Chance(15) {
+				c04Break(r, &n)
+			}
+			out := n.Key
+			if r.Chance(30) {
+				n.OutKey = fresh("k")
+				n.OutTyped = r.Chance(20)
+				out = n.OutKey
+			}
+			add([]gcase.Node{n})
+			keys = []string{out}
+		case k < 45: // pass-through (keys unchanged)
+			add([]gcase.Node{{Key: fresh("p"), Body: gcase.Body{Op: "pass"}}})
+		case k < 65: // pick a key with a pass-through node, then a lambda on the string
+			ik := someKey()
+			add([]gcase.Node{{Key: fresh("p"), Body: gcase.Body{Op: "pass"}, InKey: ik}})
+			n := c04Lambda(r, fresh("n"))
+			n.SIn = ik
+			out := n.Key
+			if r.Chance(35) {
+				n.OutKey = fresh("k")
+				n.OutTyped = r.Chance(30)
+				out = n.OutKey
+			}
+			if r.Chance(15) {
+				c04Break(r, &n)
+			}
+			add([]gcase.Node{n})
+			keys = []string{out}
+		default: // parallel
+			np := r.Range(2, 3)
+			var stage []gcase.Node
+			var outs []string
+			for i := 0; i < np; i++ {
+				n := c04Lambda(r, fresh("n"))
+				n.OutKey = fresh("k")
+				n.OutTyped = r.Chance(15)
+				if r.Chance(25) {
+					n.InKey = someKey()
+				}
+				stage = append(stage, n)
+				outs = append(outs, n.OutKey)
+			}
+			if r.Chance(40) {
+				c04Break(r, &stage[r.Intn(np)])
+			}
+			add(stage)
+			keys = outs
+		}
+	}
+	for _, p := range prev {
+		g.Edges = append(g.Edges, [2]string{p, "end"})
+	}
+	return g
+}
+
+// c04Corpus: small hand-written members of the families above, run first on every seed.
+func c04Corpus() []*c04Case {
+	one, zero := 1, 0
+	tag := gcase.Body{Op: "tag"}
+	pass := gcase.Body{Op: "pass"}
+	brk := func(after *int) gcase.Body { return gcase.Body{Op: "fail", ID: 5, After: after} }
+	var out []*c04Case
+	// a Parallel / a fan-in one member of which breaks in the middle of its keyed stream
+	for _, after := range []*int{&one, &zero} {
+		for _, nat := range []string{"s", "t", "ist"} {
+			out = append(out, &c04Case{Input: "input0", G: &gcase.Graph{Mode: "pregel",
+				Nodes: []gcase.Node{{Key: "good", Body: tag, Native: "i", OutKey: "kg"},
+					{Key: "bad", Body: brk(after), Native: nat, Chunks: []int{1, 1}, OutKey: "kb"}},
+				Edges:  [][2]string{{"start", "good"}, {"start", "bad"}, {"good", "end"}, {"bad", "end"}},
+				Stages: [][]string{{"good", "bad"}}}})
+			for _, mode := range []string{"pregel", "dag"} {
+				out = append(out, &c04Case{Input: "input1", InChunks: []int{1}, G: &gcase.Graph{Mode: mode,
+					Nodes: []gcase.Node{{Key: "good", Body: tag, Native: "i", OutKey: "kg"},
+						{Key: "bad", Body: brk(after), Native: nat, Chunks: []int{0, 2}, OutKey: "kb"},
+						{Key: "consumer", Body: tag, Native: "i"}},
+					Edges: [][2]string{{"start", "good"}, {"start", "bad"}, {"good", "consumer"}, {"bad", "consumer"}, {"consumer", "end"}}}})
+			}
+		}
+	}
+	// a pass-through node that picks a key for a lambda whose input and output types differ
+	for _, nat := range []string{"i", "s", "c", "t"} {
+		for _, typed := range []bool{false, true} {
+			n := gcase.Node{Key: "len", Body: tag, Native: nat, Chunks: []int{1}, SIn: "in"}
+			if typed {
+				n.OutKey, n.OutTyped = "k", true
+			}
+			out = append(out, &c04Case{Input: "input2", InChunks: []int{1, 0}, G: &gcase.Graph{Mode: "pregel",
+				Nodes: []gcase.Node{{Key: "pick", Body: pass, InKey: "in"}, n},
+				Edges: [][2]string{{"start", "pick"}, {"pick", "len"}, {"len", "end"}}}})
+			m := n
+			m.SIn = "k0"
+			out = append(out, &c04Case{Input: "input3", InChunks: []int{2}, G: &gcase.Graph{Mode: "pregel",
+				Nodes:  []gcase.Node{{Key: "src", Body: tag, Native: "s", Chunks: []int{2, 2}, OutKey: "k0"}, {Key: "pick", Body: pass, InKey: "k0"}, m},
+				Edges:  [][2]string{{"start", "src"}, {"src", "pick"}, {"pick", "len"}, {"len", "end"}},
+				Stages: [][]string{{"src"}, {"pick"}, {"len"}}}})
+		}
+	}
+	return out
+}
+
+// c04HasBreak: some producer breaks in the middle of its stream (second result: or some
+// pass-through node filters its input stream by key, which fails lazily too when the key is missing).
+func c04HasBreak(g *gcase.Graph) (broken, lazy bool) {
+	for _, n := range g.Nodes {
+		if n.Body.After != nil {
+			broken, lazy = true, true
+		}
+		if n.Body.Op == "pass" && n.InKey != "" {
+			lazy = true
+		}
+		if n.Body.Op == "graph" {
+			b, l := c04HasBreak(n.Body.G)
+			broken, lazy = broken || b, lazy || l
+		}
+	}
+	return
+}
+
 func runC04(ctx *vh.Ctx) error {
 	ctx.Res.Rule = "random graphs (pregel and dag, cycles, fan-in, branches, nested) whose nodes natively implement a random non-empty subset of invoke/stream/collect/transform with random chunk patterns; input chunked randomly; the same compiled object called through Invoke, Stream, Collect, Transform; non-trivial = >=2 distinct native subsets or fan-in/branch/nested/cycle; distinct by canonical case"
 	if ctx.Replay != nil {
@@ -121,13 +478,32 @@ func runC04(ctx *vh.Ctx) error {
 		}
 		return c04One(ctx, &c)
 	}
+	for _, c := range c04Corpus() {
+		if err := c04One(ctx, c); err != nil {
+			return err
+		}
+	}
 	n := ctx.N(6000, 40000)
 	for i := 0; i < n && ctx.TimeLeft(); i++ {
-		o := gcase.GenOpts{Mode: "mixed", MaxNodes: 6, Depth: 1, Cycles: true, FailPct: 3, BranchPct: 20}
-		g := gcase.Gen(ctx.Rng, o)
-		gcase.AssignNatives(ctx.Rng, g)
-		if ctx.Rng.Chance(60) {
-			gcase.AssignKeys(ctx.Rng, g)
+		var g *gcase.Graph
+		switch k := ctx.Rng.Intn(100); {
+		case k < 60:
+			o := gcase.GenOpts{Mode: "mixed", MaxNodes: 6, Depth: 1, Cycles: true, FailPct: 3, BranchPct: 20}
+			g = gcase.Gen(ctx.Rng, o)
+			gcase.AssignNatives(ctx.Rng, g)
+			if ctx.Rng.Chance(20) {
+				c04BreakOne(ctx.Rng, g)
+			}
+			if ctx.Rng.Chance(60) {
+				gcase.AssignKeys(ctx.Rng, g)
+			}
+			if ctx.Rng.Chance(30) {
+				c04PickKey(ctx.Rng, g)
+			}
+		case k < 80:
+			g = c04GenFanIn(ctx.Rng)
+		default:
+			g = c04GenChain(ctx.Rng)
 		}
 		c := &c04Case{G: g, Input: fmt.Sprintf("input%d", ctx.Rng.Intn(5))}
 		for k := ctx.Rng.Intn(3); k > 0; k-- {
